@@ -74,11 +74,6 @@ HARNESSES = [
       fns=["compress_block", "HuffmanOxide::start_static_block", "HuffmanOxide::optimize_table(static)", "compress_lz_codes", "OutputBufferOxide::put_bits"],
       strength="F: the fixed code is concrete; bit alignments 0 and 5; pending bits symbolic"),
     H("k_put_bits_model_equiv", "K-flushmark", ["C02", "C10", "C12"], fns=["OutputBufferOxide::put_bits"], cost=20),
-    # ---- K-normalstep ----
-    *[H(n, "K-normalstep", ["C01", "C02", "C10", "C11", "C12"], cost=100, timeout=900,
-      fns=["compress_normal"],
-      strength="B(<=3 input bytes from two concrete patterns, <=2 bytes of prior lookahead, window position 40000, flush requested; complete in flags, window bits, dictionary size, carried lazy match, matcher results)",
-      note="find_match / record_match / record_literal / flush_block replaced by contract models that assert their preconditions at the real call sites (find_match's own contract: K-findmatch or assumed)") for n in ("k_normal_step_zeros", "k_normal_step_distinct")],
     # ---- K-dispatch ----
     H("k_dispatch", "K-dispatch", ["C01", "C02", "C09", "C10", "C11", "C12", "C14", "C16"],
       fns=["compress", "compress_inner", "CallbackOxide::new_callback_buf"], cost=60, timeout=900,
